@@ -25,3 +25,14 @@ Theorem C06_pacman_refuted_K24 :
   /\ pr_changed (fst (pacman p false {| pdb := d; plog := [] |})) = true
   /\ known_check_skips_refresh p d = true.
 Proof. exact K24_check_skips_refresh_refuted. Qed.
+
+(* the theorems above speak of runs that both succeed; "check mode reports a status, the real run fails"
+   is a misprediction too, and the code has it: K28 *)
+Theorem C06_check_misses_failure_refuted_K28 :
+  let t := TFile {| fp_path := ["np"; "d"]%string; fp_state := STouch; fp_mode := None |} in
+  fst (run_task env0 t true {| sw := w_empty; slog := [] |}) = ROk true
+  /\ fst (run_task env0 t false {| sw := w_empty; slog := [] |}) = RErr
+  /\ (let c := TCopy {| cp_input := IContent "x"; cp_dest := ["np"; "d"]%string; cp_mode := MNone |} in
+      fst (run_task env0 c true {| sw := w_empty; slog := [] |}) = ROk true
+      /\ fst (run_task env0 c false {| sw := w_empty; slog := [] |}) = RErr).
+Proof. exact K28_check_misses_failure_refuted. Qed.
